@@ -5,12 +5,12 @@ use std::sync::Arc;
 
 use actix::prelude::*;
 use actix_web::dev::HttpServiceFactory;
-use actix_web::{get, http::header, put, web, HttpResponse, Responder, Scope};
+use actix_web::{get, http::header, put, web, HttpMessage, HttpRequest, HttpResponse, Responder, Scope};
 use serde::{Deserialize, Serialize};
 
 use crate::common::appdata::AppShareData;
 use crate::common::web_utils::get_req_body;
-use crate::merge_web_param;
+use crate::{merge_web_param, user_namespace_privilege};
 use crate::naming::api_model::InstanceVO;
 use crate::naming::core::{NamingActor, NamingCmd, NamingResult};
 use crate::naming::model::{Instance, InstanceUpdateTag, ServiceKey};
@@ -36,11 +36,33 @@ pub(super) fn service() -> Scope {
         .service(get_instance_list)
 }
 
+/// the console serves these handlers behind a login session: a session limited to some
+/// namespaces must not reach the instances of the others (without a session every namespace is allowed)
+pub(crate) fn check_namespace_permission(
+    req: &HttpRequest,
+    namespace_id: &Arc<String>,
+) -> Option<HttpResponse> {
+    if user_namespace_privilege!(req).check_permission(namespace_id) {
+        None
+    } else {
+        Some(HttpResponse::Unauthorized().body(format!(
+            "user no such namespace permission: {}",
+            namespace_id.as_str()
+        )))
+    }
+}
+
 pub async fn get_instance(
+    req: HttpRequest,
     param: web::Query<InstanceWebParams>,
     naming_addr: web::Data<Addr<NamingActor>>,
 ) -> impl Responder {
     let instance = param.0.convert_to_instance();
+    if let Ok(instance) = &instance {
+        if let Some(resp) = check_namespace_permission(&req, &instance.namespace_id) {
+            return resp;
+        }
+    }
     match instance {
         Ok(instance) => match naming_addr.send(NamingCmd::Query(instance)).await {
             Ok(res) => {
@@ -62,6 +84,7 @@ pub async fn get_instance(
 }
 
 pub async fn update_instance(
+    req: HttpRequest,
     param: web::Query<InstanceWebParams>,
     payload: web::Payload,
     appdata: web::Data<Arc<AppShareData>>,
@@ -87,6 +110,11 @@ pub async fn update_instance(
         from_update: true,
     };
     let instance = param.convert_to_instance();
+    if let Ok(instance) = &instance {
+        if let Some(resp) = check_namespace_permission(&req, &instance.namespace_id) {
+            return resp;
+        }
+    }
     match instance {
         Ok(instance) => {
             if !instance.check_valid() {
@@ -107,12 +135,18 @@ pub async fn update_instance(
 }
 
 pub async fn del_instance(
+    req: HttpRequest,
     param: web::Query<InstanceWebParams>,
     payload: web::Payload,
     appdata: web::Data<Arc<AppShareData>>,
 ) -> impl Responder {
     let param = merge_web_param!(param.0, payload);
     let instance = param.convert_to_instance();
+    if let Ok(instance) = &instance {
+        if let Some(resp) = check_namespace_permission(&req, &instance.namespace_id) {
+            return resp;
+        }
+    }
     match instance {
         Ok(instance) => {
             if !instance.check_valid() {
